@@ -278,6 +278,10 @@ def MDL_strip(m):
 
 def _run_chunk(specs):
     _worker_init()
+    import jax
+
+    # a chunk is homogeneous in its floating-point mode (run_cases groups them)
+    jax.config.update("jax_enable_x64", bool(specs and specs[0].get("x64")))
     sessions = {}
     return [run_case(s, sessions) for s in specs]
 
@@ -287,17 +291,26 @@ def run_cases(specs, nproc=None, chunk=4):
     nproc = nproc or NPROC
     if not specs:
         return []
-    if nproc == 1 or len(specs) == 1:
-        return _run_chunk(specs)
     from .pool import robust_map
 
-    chunks = [specs[i:i + chunk] for i in range(0, len(specs), chunk)]
+    # chunks are homogeneous in the floating-point mode; results are put back into the order of `specs`
+    order = sorted(range(len(specs)), key=lambda i: bool(specs[i].get("x64")))
+    groups = [[i for i in order if bool(specs[i].get("x64")) == flag] for flag in (False, True)]
+    idx_chunks = [g[i:i + chunk] for g in groups for i in range(0, len(g), chunk)]
+    if nproc == 1 or len(specs) == 1:
+        out = [None] * len(specs)
+        for ic in idx_chunks:
+            for i, r in zip(ic, _run_chunk([specs[i] for i in ic]), strict=True):
+                out[i] = r
+        return out
+    chunks = [[specs[i] for i in ic] for ic in idx_chunks]
 
     def failed(ch, why):     # the driver process died or hung on this chunk: every case of it is a crash
         return [{**{k: v for k, v in s.items() if k != "plan"}, "mdl": MDL_strip(s["mdl"]),
                  "events": [{"e": "error", "op": "driver", "cls": "DriverProcessFailure", "msg": why}]} for s in ch]
 
-    out = []
-    for res in robust_map(_run_chunk, chunks, nproc, failed, initializer=_worker_init):
-        out.extend(res)
+    out = [None] * len(specs)
+    for ic, res in zip(idx_chunks, robust_map(_run_chunk, chunks, nproc, failed, initializer=_worker_init), strict=True):
+        for i, r in zip(ic, res, strict=True):
+            out[i] = r
     return out
